@@ -113,14 +113,15 @@ class Family:
 
     def view(self, f: ast.FunctionDef) -> ast.FunctionDef:
         """The function as the rules read it: helpers that take the decodable as a parameter inlined at their call sites (cached per definition)."""
-        from sa.props._lib_g import inline_module_helpers
+        from sa.props._lib_g import inline_module_helpers, normalise_local_shapes
         views = self.__dict__.setdefault("_views", {})
         k = id(f)
         if k not in views:
             if self._takes_a_decodable(f) and not isinstance(getattr(f, "_parent", None), ast.ClassDef):
                 views[k] = (f, f)
             else:
-                v, inl, refused = inline_module_helpers(self.mod, f, self._takes_a_decodable)
+                f1, _done = normalise_local_shapes(f)
+                v, inl, refused = inline_module_helpers(self.mod, f1, self._takes_a_decodable)
                 for r in refused:
                     self.ctx.note(f"family: helper not inlined ({r}); it is classified on its own")
                 views[k] = (f, v)       # the original is kept alive so that its id stays unique
